@@ -72,7 +72,16 @@ class Entity(ABC):
 
         map_attributes(self, **kwargs)
 
-        self.workspace.register(self)
+        try:
+            self.workspace.register(self)
+        except RuntimeError:
+            # the identifier is in use: undo the parent assignment made above
+            parent = self._parent
+            if parent is not None and hasattr(parent, "_children"):
+                parent._children = [
+                    child for child in parent._children if child is not self
+                ]
+            raise
 
     @property
     def allow_delete(self) -> bool:
